@@ -47,7 +47,7 @@ struct RunOut {
     fault_hit: bool,
     target_pushed: usize,
     target_pulled: usize,
-    /// (interleaved stratum) was the target's update already on the server when the other replica got in?
+    /// (interleaved stratum) had the target's push already reached the server when the other replica got in?
     target_on_chain: bool,
 }
 
@@ -156,7 +156,9 @@ fn run_once(prior: &[Act], n: usize, kind0: StoreKind, faults: &[Fault], interle
             if let Some((u, prop, t)) = target_update.clone() {
                 target_on_chain = {
                     let c = chain.0.borrow();
-                    (v0..c.versions.len()).any(|k| c.versions[k].client == 0 && c.ops_of(k).iter().any(|o| matches!(o, model::MOp::Update { uuid, prop: p2, ts, .. } if *uuid == u && *p2 == prop && *ts == t)))
+                    // (any version of the target counts: the chosen update itself may have lost
+                    // against an incoming one and been dropped from what was pushed)
+                    (v0..c.versions.len()).any(|k| c.versions[k].client == 0)
                 };
                 chain.0.borrow_mut().faults.clear();
                 sync(&mut reps[1], &chain, false).map_err(|e| fail("harness", format!("interleaved sync: {e:#}")))?;
